@@ -15,8 +15,9 @@ import sys
 import time
 
 ROOT = os.path.dirname(os.path.dirname(os.path.abspath(__file__)))
-WT = "/tmp/seedverify-wt"
-ENV = dict(os.environ, CARGO_NET_OFFLINE="true", CARGO_TARGET_DIR="/tmp/seedverify-target")
+# SEEDVERIFY_WT: scratch worktree of /repo (one per concurrent user)
+WT = os.environ.get("SEEDVERIFY_WT", "/tmp/seedverify-wt")
+ENV = dict(os.environ, CARGO_NET_OFFLINE="true", CARGO_TARGET_DIR=(WT + "-target" if "SEEDVERIFY_WT" in os.environ else "/tmp/seedverify-target"))
 
 
 def sh(cmd, cwd=None, env=None, timeout=3000):
